@@ -769,6 +769,15 @@ def run_shard(spec, rec):
             for q in xs:
                 q.base = np.where(g.mask(q.base.shape, 0.5), 273.15, q.base)
                 a_c[id(q)] = degc
+        elif len(xs) >= 2 and g.r.random() < 0.3:
+            # one operand sits exactly on the zero point of its offset scale (magnitude all zeros in degC,
+            # 273.15 K physically) next to operands in other units: zero is not "nothing" there
+            q0 = g.r.choice(xs[1:])
+            q0.base = np.full_like(q0.base, 273.15)
+            a_c[id(q0)] = degc
+            if a_c[id(xs[0])] == degc:
+                a_c[id(xs[0])] = kel
+            rec.count("offset_zero_point_operands")
         rspec = var.res(call) if callable(var.res) else var.res
         args, kwargs = realize(call, a_k)
         oc_k, got_k = outcome(lambda: invoke(ent, var, args, kwargs))
